@@ -472,4 +472,14 @@ def rule_set_property_main(ctx):
     rule_set_property(ctx, "O11.1")
 
 
-RULES = [rule_set_property_main, rule_defaults, rule_validated_character, rule_consistency, rule_documentation, rule_property_row]
+def rule_character_spellings(ctx):
+    """O1.6 (shared with C01): validated_character reads a character given as number, symbolic name or quoted text through
+    the helpers of cutplace.ranges; their decision tables are part of C11's obligations."""
+    from .c01 import rule_limit_spellings
+
+    rule_limit_spellings(ctx)
+
+
+from .common import rule_module_state  # noqa: E402
+
+RULES = [rule_character_spellings, rule_set_property_main, rule_defaults, rule_validated_character, rule_consistency, rule_documentation, rule_property_row, rule_module_state]
